@@ -499,19 +499,19 @@ func genGater(r *hx.Rng, id int) gScript {
 		b.unblock(t)
 		b.wait(2)
 	case 4: // IPv6 spellings: f = 2001:db8::2, o = 9.9.9.9 (also written ::ffff:9.9.9.9)
-		fs, os := spellingsOf(ips[f]), spellingsOf(ips[o])
+		fs, osp := spellingsOf(ips[f]), spellingsOf(ips[o])
 		b.penS(f, fs[0], 50)
 		b.penS(f, fs[1], 50)
-		b.blockS("block", o, os[0])
+		b.blockS("block", o, osp[0])
 		b.wait(1)
-		b.blockS("unblock", o, os[1])
-		b.penS(o, os[0], 99)
+		b.blockS("unblock", o, osp[1])
+		b.penS(o, osp[0], 99)
 		b.wait(1)
-		b.penS(o, os[1], 10)
+		b.penS(o, osp[1], 10)
 		b.wait(1)
 		b.penS(f, fs[1], 5)
 		b.wait(2)
-		b.penS(o, os[0], 25)
+		b.penS(o, osp[0], 25)
 		b.wait(1)
 	default: // random
 		total := 6 + r.Intn(3)
